@@ -17,6 +17,7 @@ use rpharness::*;
 fn game_stream(run: &mut Run, rng: &mut Rng, n_hist: usize) {
     use gamewalk::*;
     let full = bits(hand(Hand::mask()));
+    ambient::install();
     let deals = make_deals(rng, 48);
     for h in 0..n_hist {
         let deal = &deals[h % deals.len()];
@@ -38,6 +39,19 @@ fn game_stream(run: &mut Run, rng: &mut Rng, n_hist: usize) {
             }
             let gg = *g;
             let deck = catch(move || bits(Hand::from(gg.deck())));
+            // same question with TRACE logging on, and (1 state in 32) from a fresh thread
+            let deck_traced = ambient::with_trace(|| catch(move || bits(Hand::from(gg.deck()))));
+            run.spec_checked += 1;
+            if deck_traced != deck {
+                run.fail("deck-depends-on-logging", &format!("deck {at}"), &format!("{deck:?}"), &format!("{deck_traced:?}"));
+            }
+            if run.evaluations % 32 == 0 {
+                let deck_thread = ambient::in_thread(move || catch(move || bits(Hand::from(gg.deck())))).flatten();
+                run.spec_checked += 1;
+                if deck_thread != deck {
+                    run.fail("deck-depends-on-thread", &format!("deck {at}"), &format!("{deck:?}"), &format!("{deck_thread:?}"));
+                }
+            }
             match deck {
                 None => run.fail("deck-panics", &format!("deck {at}"), "a deck", "panic"),
                 Some(d) => {
@@ -176,5 +190,74 @@ fn main() {
     let n_hist = if a.thorough() { 40_000 } else { 4_000 };
     run.rule.push_str(&format!("; dealing half: {n_hist} random histories of the real Game over 48 deals with the engine's own offered draws and forced ones, every state checked for pairwise disjoint holes/board and deck = complement, 4 offered draws per chance node"));
     game_stream(&mut run, &mut rng, n_hist);
+    // ---- fresh threads: the first cards dealt on many threads started together must not coincide
+    // (a per-thread generator seeded from the clock, a constant or the thread start makes them equal)
+    {
+        let nthreads = if a.thorough() { 2000 } else { 256 };
+        let handles: Vec<_> = (0..nthreads)
+            .map(|_| {
+                std::thread::spawn(move || {
+                    let mut deck = Deck::new();
+                    let a = u8::from(deck.draw());
+                    let b = u8::from(deck.draw());
+                    let c = u8::from(deck.draw());
+                    (a, b, c)
+                })
+            })
+            .collect();
+        let seqs: Vec<(u8, u8, u8)> = handles.into_iter().filter_map(|h| h.join().ok()).collect();
+        run.evaluations += seqs.len() as u64;
+        run.spec_checked += 1;
+        let firsts: std::collections::BTreeSet<u8> = seqs.iter().map(|s| s.0).collect();
+        let triples: std::collections::BTreeSet<(u8, u8, u8)> = seqs.iter().copied().collect();
+        let deck_n = full.count_ones() as usize;
+        // expected number of distinct first cards among t uniform draws from n: n(1-(1-1/n)^t)
+        let expect = deck_n as f64 * (1.0 - (1.0 - 1.0 / deck_n as f64).powi(seqs.len() as i32));
+        run.count(&format!("fresh-thread-first-cards distinct={} of {} threads", firsts.len(), seqs.len()));
+        if (firsts.len() as f64) < 0.6 * expect || triples.len() * 2 < seqs.len() {
+            run.fail("draws-correlated-across-threads", &format!("{} fresh threads each drawing 3 cards from a full deck", seqs.len()),
+                &format!("about {:.0} distinct first cards and almost all 3-card sequences distinct", expect),
+                &format!("{} distinct first cards, {} distinct sequences", firsts.len(), triples.len()));
+        }
+    }
+    // ---- random observations (Observation::from(Street)): every card equally likely to be a pocket
+    // card and equally likely to be a board card; pocket and board disjoint
+    {
+        use robopoker::cards::observation::Observation;
+        use robopoker::cards::street::Street;
+        let n: u64 = if a.thorough() { 600_000 } else { 120_000 };
+        for (street, nb) in [(Street::Pref, 0u32), (Street::Flop, 3), (Street::Turn, 4), (Street::Rive, 5)] {
+            let mut pocket_hist = vec![0u64; 64];
+            let mut board_hist = vec![0u64; 64];
+            let mut bad = 0u64;
+            for _ in 0..n {
+                let o = Observation::from(street);
+                let p = u64::from(*o.pocket());
+                let b = u64::from(*o.public());
+                if p & b != 0 || p.count_ones() != 2 || b.count_ones() != nb || (p | b) & !full != 0 { bad += 1; }
+                for c in 0..64 { if p >> c & 1 == 1 { pocket_hist[c] += 1; } if b >> c & 1 == 1 { board_hist[c] += 1; } }
+            }
+            run.evaluations += n;
+            run.spec_checked += 1;
+            if bad > 0 {
+                run.fail("random-observation-malformed", &format!("Observation::from({street})"), "2 pocket cards, a street-sized board, disjoint, inside the deck", &format!("{bad} of {n} malformed"));
+            }
+            let deck_n = full.count_ones() as f64;
+            for (name, hist, k) in [("pocket", &pocket_hist, 2.0f64), ("board", &board_hist, nb as f64)] {
+                if k == 0.0 { continue; }
+                let p = k / deck_n;
+                let mean = n as f64 * p;
+                let sigma = (n as f64 * p * (1.0 - p)).sqrt();
+                for c in 0..64usize {
+                    if full >> c & 1 == 1 && (hist[c] as f64 - mean).abs() > 6.0 * sigma {
+                        run.fail("random-observation-not-uniform", &format!("{n} x Observation::from({street})"),
+                            &format!("card {c} a {name} card about {mean:.0} times"), &format!("{} times", hist[c]));
+                        break;
+                    }
+                }
+            }
+            run.count(&format!("random-observations street={street}"));
+        }
+    }
     run.finish();
 }
